@@ -37,6 +37,9 @@ def run(ctx):
             md = rng.choice([2, 3, 3, 4]) if not ctx.thorough else rng.choice([2, 3, 4, 6, 8])
             c = E.make_case(rng, s, maxdepth=md, size=rng.choice([0.3, 1.0]), klass='nested')
             cases.append(c)
+        # the generated <field>_nest / _typed_nest with align argument 0 / 1 / 4 (raised to the struct's alignment for struct targets)
+        for i in range(60 if not ctx.thorough else 600):
+            cases.append(E.make_case(rng, s, maxdepth=2, size=0.3, klass='nested-generated-nest', gen_api=True, full=True, nest_only=True, embed_bias=0.0))
         # flatcc_builder_embed_buffer: existing bytes embedded inside a nested level with their alignment or a larger one (8..256)
         for i in range(n // 2):
             cases.append(E.make_case(rng, s, maxdepth=rng.choice([3, 4]), size=rng.choice([0.3, 1.0]), klass='nested-embed', embed_bias=0.7))
